@@ -33,7 +33,7 @@ func leavesC03() []*qast.Node {
 	L := qast.Lf
 	var ls []*qast.Node
 	eq := func(f string, v qast.Value) { ls = append(ls, L(qast.Leaf{Kind: qast.LEq, Field: f, Val: v})) }
-	for _, v := range []string{"5", "-5", "0", "9223372036854775807", "-9223372036854775808"} {
+	for _, v := range []string{"5", "-5", "0", "9223372036854775807", "-9223372036854775808", "010", "-007"} {
 		eq("n", qast.I(v))
 	}
 	for _, v := range []string{"0.5", "1.25", "0.001", "-2.75", "0.0078125", "0.0000001", "12345678.5", "123456.789012345"} {
@@ -59,6 +59,9 @@ func leavesC03() []*qast.Node {
 	}
 	rng("n", qast.I("1"), qast.I("5"))
 	rng("n", qast.I("-5"), qast.I("5"))
+	rng("n", qast.I("007"), qast.I("010"))
+	rng("n", qast.I("5"), qast.I("1"))       // reversed: selects nothing
+	rng("n", qast.F("2.5"), qast.F("0.5")) // reversed: selects nothing
 	rng("n", qast.Star, qast.I("5"))
 	rng("n", qast.I("1"), qast.Star)
 	rng("n", qast.F("0.5"), qast.F("1.25"))
